@@ -88,14 +88,17 @@ fn generate(prop: &str, sink: &mut sink::Sink, rng: &mut rng::Rng, n: u64) -> bo
         "C09" => lang::generate(sink, rng, n, false, Some("o.c09")),
         "C01" => {
             typed::generate(sink, rng, n, "o.c01");
+            typed::generate_env(sink, rng, n, "o.c01");
             tinfo::generate(sink, rng, n);
         }
         "C02" => {
             typed::generate(sink, rng, n, "o.c02");
+            typed::generate_env(sink, rng, n, "o.c02");
             tinfo::generate(sink, rng, n);
         }
         "C12" => {
             typed::generate(sink, rng, n, "o.c12");
+            typed::generate_env(sink, rng, n, "o.c12");
             tinfo::generate(sink, rng, n);
         }
         "C04" => sweep::generate(sink, rng, n, "o.c04.fn"),
